@@ -118,9 +118,16 @@ func (c *catalogClass_[K, V]) Extract(
 	keys Sequential[K],
 ) CatalogLike[K, V] {
 	var result = c.Make()
+	var present = map[K]bool{}
+	for _, existing := range catalog.GetKeys().AsArray() {
+		present[existing] = true
+	}
 	var iterator = keys.GetIterator()
 	for iterator.HasNext() {
 		var key = iterator.GetNext()
+		if !present[key] {
+			continue // The catalog has no association for this key.
+		}
 		var value = catalog.GetValue(key)
 		result.SetValue(key, value)
 	}
